@@ -146,6 +146,7 @@ var (
 	hotDec    []uint16 // decisions at hot sites
 	hotPos    int
 	hotSite   []bool
+	hotReader bool
 
 	// statistics / trace
 	Switches          uint64
@@ -161,12 +162,13 @@ var (
 
 // SchedConfig is the pre-drawn schedule of one run.
 type SchedConfig struct {
-	Tasks    int
-	After    []uint16 // run-length encoded switches at ordinary sites
-	To       []uint16
-	Hot      []uint16 // one decision per visit of a hot site (0 = keep running)
-	HotSites []int
-	Trace    bool
+	Tasks     int
+	After     []uint16 // run-length encoded switches at ordinary sites
+	To        []uint16
+	Hot       []uint16 // one decision per visit of a hot site (0 = keep running)
+	HotSites  []int
+	HotReader bool // the scheduling point after each chunk of the random reader (site -2) is hot
+	Trace     bool
 }
 
 // SchedStart arms the scheduler; the caller (driver) holds the baton.
@@ -193,6 +195,7 @@ func SchedStart(c SchedConfig) {
 			hotSite[s] = true
 		}
 	}
+	hotReader = c.HotReader
 	inPoolCrit = make([]int8, c.Tasks)
 	curCall = make([]int32, c.Tasks)
 	for i := range curCall {
@@ -225,7 +228,7 @@ func mix(v uint64) {
 //go:norace
 func nextDecision(site int) uint16 {
 	Decisions++
-	if site >= 0 && site < len(hotSite) && hotSite[site] {
+	if (site >= 0 && site < len(hotSite) && hotSite[site]) || (site == -2 && hotReader) {
 		if hotPos < len(hotDec) {
 			d := hotDec[hotPos]
 			hotPos++
